@@ -61,6 +61,13 @@ CHECKS = {
         "tuple is audited by an independent re-implementation of 'valid array' and becomes a successor state. Depth 2 is explored completely in quick (10^7 transitions, ~10^6 distinct "
         "structure states), depth 3 in thorough under a reported cap. This reaches derived inputs (nested / conjugated sub-index info, dropped charges, truncated factors) that no constructor gives.",
    note="Trusted: mc/audit.py + mc/groups.py as the definition of validity. Merging states with equal structure keys assumes data obliviousness. Known finding: expand_dims(c=odd) on fermionic arrays."),
+ "C14": dict(engine="E-bfs", design_ref="DESIGN.md 5 C14",
+   technique="explicit-state search (depth 2) over operation pairs on shared, read-only-frozen operands with bit-exact before/after snapshots; in-place vs out-of-place differential",
+   text="Every catalogue operation is applied to every root (abelian, fermionic with pending signs and labels, block vectors; n<=3) whose blocks are marked read-only and whose complete observable "
+        "state (block bytes and order, index tables incl. sub-index info, charge, sign table in order, labels) was snapshotted by the harness; then every operation - out-of-place and in-place - is applied "
+        "to every array result of every first operation (these share memory with the root): root and intermediate must stay bit-identical, any write through a view raises at the faulty line. "
+        "For each operation with an in-place flag, op(copy, inplace=True) must return the copy itself and equal op(x) exactly.",
+   note="Trusted: numpy's writeable flag and shares_memory; harness snapshot. Documented mutators are exercised on a library copy."),
 }
 
 _ALL = ["C%02d" % i for i in range(1, 21)]
